@@ -13,13 +13,18 @@ func readPointer(s string) (Path, error) {
 	if err != nil {
 		return nil, err
 	}
+	if err := checkPointerEscapes(s); err != nil {
+		return nil, err
+	}
 	tokens := pointer.DecodedTokens()
 	path := make(jsonArray, len(tokens))
 	for i, t := range tokens {
 		var element JsonNode
 		var err error
 		number, err := strconv.Atoi(t)
-		if err == nil {
+		// RFC 6901 section 4: an array index is "0" or digits without
+		// a leading zero. Any other token (01, +1, -1) names a member.
+		if err == nil && number >= 0 && strconv.Itoa(number) == t {
 			element, err = NewJsonNode(number)
 		} else {
 			element, err = NewJsonNode(t)
@@ -33,6 +38,20 @@ func readPointer(s string) (Path, error) {
 		path[i] = element
 	}
 	return NewPath(path)
+}
+
+// checkPointerEscapes rejects a "~" that is not followed by "0" or "1"
+// (RFC 6901 section 3).
+func checkPointerEscapes(s string) error {
+	for i := 0; i < len(s); i++ {
+		if s[i] != '~' {
+			continue
+		}
+		if i+1 >= len(s) || (s[i+1] != '0' && s[i+1] != '1') {
+			return fmt.Errorf("invalid escape in JSON Pointer %q", s)
+		}
+	}
+	return nil
 }
 
 func writePointer(path []JsonNode) (string, error) {
